@@ -320,7 +320,52 @@ def pick_profile(rng):
     return PROFILES[0][0], PROFILES[0][2]
 
 
+def gen_cross_case(rng):
+    """PRE-STATE with cross-graph links: one direct load puts the nodes of two graph ids into the shared store together
+    with links inside each graph and links ACROSS them (what merge_nodes leaves before the other graph's nodes are
+    re-homed); then the graph on either side is serialized and re-imported"""
+    ga, gb = rng.sample(['g1', 'g2', 'slice one', 'G-1'], 2)
+    na, nb = rng.choice([1, 2, 3]), rng.choice([1, 2, 3])
+    nodes = []
+    for i in range(na + nb):
+        gid = ga if i < na else gb
+        d = {'GraphID': gid, 'NodeID': 'node-%d' % i if rng.random() < 0.7 else 'n%d-' % i + gen_string(rng),
+             'Class': rng.choice(CLASSES_N)}
+        d.update(gen_props(rng, GOOD))
+        nodes.append([i + 1, d])
+    keys_a, keys_b = list(range(1, na + 1)), list(range(na + 1, na + nb + 1))
+    edges = []
+    def link(u, v):
+        d = {'Class': rng.choice(CLASSES_E)}
+        if rng.random() < 0.3:
+            d.update(gen_props(rng, GOOD))
+        edges.append([u, v, d] if rng.random() < 0.5 else [v, u, d])
+    for ks in (keys_a, keys_b):
+        pairs = [(a, b) for a in ks for b in ks if a < b]
+        rng.shuffle(pairs)
+        for a, b in pairs[:rng.choice([0, 1, 2])]:
+            link(a, b)
+    cross = [(a, b) for a in keys_a for b in keys_b]
+    rng.shuffle(cross)
+    for a, b in cross[:rng.choice([1, 1, 2, 3])]:
+        link(a, b)
+    pre = [[True, ga, {'nodes': nodes, 'edges': edges}]]
+    if rng.random() < 0.3:
+        pre.append([rng.random() < 0.5, 'g9', gen_raw_graph(rng, 'g9', GOOD, key0=100)])
+    src = rng.choice([ga, gb])
+    new = rng.choice([src, 'new-graph', 'new-graph', gb if src == ga else ga])
+    watch = []
+    for w in [ga, gb, new, 'g9']:
+        if w not in watch:
+            watch.append(w)
+    return {'kind': 'raw', 'profile': 'cross', 'pre': pre, 'src': src, 'raw': {'nodes': [], 'edges': []},
+            'fmt': rng.randrange(2), 'ep': rng.randrange(4), 'gid': new, 'watch': watch, 'topo': None,
+            'peek': rng.random() < 0.3}
+
+
 def gen_raw_case(rng):
+    if rng.random() < 0.12:
+        return gen_cross_case(rng)
     pname, prof = pick_profile(rng)
     gid = rng.choice(['g1', 'G-1', 'a0b1', 'slice one', 'id&<>"', 'über', 'x'])
     pre = []
@@ -688,29 +733,62 @@ def has_cr(g):
                for d in [d for _, d in g['nodes']] + [d for _, _, d in g['edges']] for v in d.values())
 
 
-def source_graph(case, obs):
+def source_graph(case, obs, flavour='shared'):
     """(the graph that gets serialized, the graphs the store holds by id); None where the history is not one the
-    oracle can interpret (failed or overlapping loads)"""
-    store = {}
-    for (direct, gid, g), l in zip(case['pre'], obs['loads']):
-        if l[0] != 'ok' or gid in store:
-            store = None               # a failed load may have deleted things; a second load of an id replaces
-            break
-        gg = copy.deepcopy(g)
-        if not direct:
-            for _, d in gg['nodes']:
-                d['GraphID'] = gid
-        store[gid] = gg
-    if store is not None:
-        for k, gg in store.items():    # a direct load of nodes carrying another graph's id: outside the oracle
-            if any(d.get('GraphID') != k for _, d in gg['nodes']):
-                store = None
+    oracle can interpret.  For the shared store this is an independent shadow of the store: every node belongs to the
+    graph its GraphID names, a graph's links are the links with BOTH ends in it - also when a load put nodes of
+    several graph ids and links across them into the store (cross-graph links)."""
+    if flavour == 'disjoint':
+        store = {}
+        for (direct, gid, g), l in zip(case['pre'], obs['loads']):
+            if l[0] != 'ok' or gid in store:
+                store = None               # a failed load; a second load of an id is skipped or replaces
                 break
+            gg = copy.deepcopy(g)
+            if not direct:
+                for _, d in gg['nodes']:
+                    d['GraphID'] = gid
+            store[gid] = gg
+        if store is not None:
+            for k, gg in store.items():    # a direct load of nodes carrying another graph's id: outside the oracle
+                if any(d.get('GraphID') != k for _, d in gg['nodes']):
+                    store = None
+                    break
+    else:
+        nodes, edges = [], []
+        store = {}
+        for i, ((direct, gid, g), l) in enumerate(zip(case['pre'], obs['loads'])):
+            if l[0] != 'ok':
+                store = None               # a failed load may have deleted things: left to the model
+                break
+            dead = {u for u, d in nodes if isinstance(d.get('GraphID'), str) and d['GraphID'] == gid}
+            nodes = [[u, d] for u, d in nodes if u not in dead]
+            edges = [e for e in edges if e[0] not in dead and e[1] not in dead]
+            for k, d in g['nodes']:
+                d = copy.deepcopy(d)
+                if not direct:
+                    d['GraphID'] = gid
+                nodes.append([(i, k), d])
+            for u, v, d in g['edges']:
+                edges.append([(i, u), (i, v), copy.deepcopy(d)])
+        if store is not None:
+            for gid in {d['GraphID'] for _, d in nodes if isinstance(d.get('GraphID'), str)}:
+                own = [[u, d] for u, d in nodes if d.get('GraphID') == gid]
+                ids = {u for u, _ in own}
+                store[gid] = {'nodes': own, 'edges': [e for e in edges if e[0] in ids and e[1] in ids]}
     if case['src'] is None:
         return case['raw'], store
     if store is None:
         return None, None
     return store.get(case['src']), store
+
+
+def doc_values(d):
+    """the attribute dicts a GraphML document spells, typed by the declared attr.type"""
+    def val(t, x):
+        return x if t == 'string' or x == '' else int(x) if t == 'long' else {'true': True, 'false': False}[x.lower()]
+    tup = lambda data: tuple(sorted((n, typed(val(t, x))) for n, t, x in data))
+    return (sorted((tup(data) for _, data in d['nodes']), key=repr), sorted((tup(data) for _, _, _, data in d['edges']), key=repr))
 
 
 def case_content(g):
@@ -720,7 +798,7 @@ def case_content(g):
 
 
 def oracle(case, obs, flavour='shared'):
-    g, store = source_graph(case, obs)
+    g, store = source_graph(case, obs, flavour)
     if g is None:
         return None
     # a text whose nodes carry more than one graph id cannot be imported "keeping the graph id": the direct entry
@@ -755,6 +833,19 @@ def oracle(case, obs, flavour='shared'):
     crs = ' [string value containing U+000D]' if has_cr(g) else ''
     if obs['ser']['kind'] in ('err', 'absent', 'unparsable'):
         return '%s: serializing a well-formed graph failed (%s)%s' % (tag, obs['ser'].get('exc') or obs['ser'].get('why') or 'returned None', crs)
+    # the text holds exactly the graph's own nodes and the links with both ends in it
+    own = case_content(g)
+    want = (sorted((tuple(sorted((k, typed(v)) for k, v in d.items())) for d in own['nodes']), key=repr),
+            sorted((tuple(sorted((k, typed(v)) for k, v in d.items())) for _, _, d in own['edges']), key=repr))
+    if fmt == 0:
+        have_t = doc_values(obs['ser']['doc'])
+    else:
+        cj = obs['ser']['content']
+        have_t = (sorted((tuple(sorted((k, typed(v)) for k, v in d.items())) for d in cj['nodes']), key=repr),
+                  sorted((tuple(sorted((k, typed(v)) for k, v in d.items())) for _, _, d in cj['edges']), key=repr))
+    if have_t != want:
+        return ('%s: the serialized text does not hold exactly the graph\'s own %d nodes and %d links (text: %d nodes, %d links)%s'
+                % (tag, len(want[0]), len(want[1]), len(have_t[0]), len(have_t[1]), crs))
     if obs['res'] is None or obs['res'][0] != 'ok':
         return '%s entry point %s: import of the library\'s own text failed: %s%s' % (tag, EPS[ep], obs['res'], crs)
     want_gid = g['nodes'][0][1]['GraphID'] if direct else case['gid']
@@ -950,7 +1041,7 @@ class RoundTrip(Stream, Run):
             for so in (o['ser'], o['reser']):
                 if so and so.get('kind') == 'json':
                     h['json_text_parsed_in_coq' if so.get('text') is not None else 'json_text_withheld'] += 1
-            g, store = source_graph(c, o)
+            g, store = source_graph(c, o, self.flavour)
             if g is not None and in_domain(g, c['fmt']):
                 h['oracle_in_domain'] += 1
                 h['with_cr'] += has_cr(g)
